@@ -1,13 +1,15 @@
 package main
 
-// The schema under test: paginated fields (int64 key / string key / pointer nodes / no filter+sort fields) over a harness-controlled list,
-// each with 3 text attributes x 4 filter-field implementations and 3 sort attributes x 4 sort-field
-// implementations (plain, expensive, batch, batch-with-fallback).
+// The schema under test: paginated fields (int64 key / string key / pointer nodes / no filter+sort fields /
+// externally managed / manual-with-fallback) over a harness-controlled list, each with 3 text attributes x 4
+// filter-field implementations, 5 sort attributes (int64 n0 n1, string s0, uint64 u0, float64 f0) x 4
+// sort-field implementations (plain, expensive, batch, batch-with-fallback) and two custom FilterFuncs.
 
 import (
 	"context"
 	"encoding/json"
 	"fmt"
+	"reflect"
 	"sort"
 	"strconv"
 	"strings"
@@ -20,10 +22,12 @@ import (
 
 // Item is the structured form of one list element (what cases.jsonl / replay files hold).
 type Item struct {
-	Key string    `json:"key"` // the key's %v rendering; for key kind "int" a decimal int64
+	Key string    `json:"key"` // the key's %v rendering; for int-keyed fields a decimal int64
 	T   [3]string `json:"t"`   // text attributes t0..t2
 	N   [2]int64  `json:"n"`   // integer sort attributes n0, n1
 	S   string    `json:"s"`   // string sort attribute s0
+	U   uint64    `json:"u"`   // unsigned sort attribute u0
+	F   float64   `json:"f"`   // float sort attribute f0 (never NaN)
 }
 
 type ItemI struct {
@@ -31,6 +35,8 @@ type ItemI struct {
 	T0, T1, T2 string
 	N0, N1     int64
 	S0         string
+	U0         uint64
+	F0         float64
 }
 
 type ItemS struct {
@@ -38,6 +44,22 @@ type ItemS struct {
 	T0, T1, T2 string
 	N0, N1     int64
 	S0         string
+	U0         uint64
+	F0         float64
+}
+
+// ExtInfo is what the resolver of an externally managed connection returns besides the page.
+type ExtInfo struct {
+	Total           *int64   `json:"total,omitempty"` // nil: TotalCountFunc left nil
+	HasNext         bool     `json:"has_next"`
+	HasPrev         bool     `json:"has_prev"`
+	Pages           []string `json:"pages,omitempty"`
+	ApplyTextFilter bool     `json:"apply_text_filter"`
+	SetPageInfo     bool     `json:"set_page_info"`
+}
+
+type ExtArgs struct {
+	PaginationArgs schemabuilder.PaginationArgs
 }
 
 type ctxKey int
@@ -45,136 +67,131 @@ type ctxKey int
 const (
 	itemsKey ctxKey = iota
 	flagKey
+	extKey
+	fallbackKey
 )
 
 var impls = []string{"plain", "exp", "batch", "fb"}
 var textAttrs = []string{"t0", "t1", "t2"}
-var sortAttrs = []string{"n0", "n1", "s0"}
+var sortAttrs = []string{"n0", "n1", "s0", "u0", "f0"}
+var structField = map[string]string{"t0": "T0", "t1": "T1", "t2": "T2", "n0": "N0", "n1": "N1", "s0": "S0", "u0": "U0", "f0": "F0"}
+var customNames = []string{"prefix", "exact"}
 
 func useBatch(ctx context.Context) bool {
 	b, _ := ctx.Value(flagKey).(bool)
 	return b
 }
 
-func textOfI(it ItemI, a int) string { return [3]string{it.T0, it.T1, it.T2}[a] }
-func textOfS(it ItemS, a int) string { return [3]string{it.T0, it.T1, it.T2}[a] }
+func useFallback(ctx context.Context) bool {
+	b, _ := ctx.Value(fallbackKey).(bool)
+	return b
+}
 
-func filterOptsI() []schemabuilder.FieldFuncOption {
-	var opts []schemabuilder.FieldFuncOption
-	for ai := range textAttrs {
-		a := ai
-		one := func(it ItemI) string { return textOfI(it, a) }
-		oneE := func(it ItemI) (string, error) { return textOfI(it, a), nil }
-		many := func(items map[batch.Index]ItemI) (map[batch.Index]string, error) {
-			m := make(map[batch.Index]string, len(items))
-			for i, it := range items {
-				m[i] = textOfI(it, a)
+var errorType = reflect.TypeOf((*error)(nil)).Elem()
+var indexType = reflect.TypeOf(batch.Index{})
+
+// attrOpts builds the four implementations of a filter or sort field that returns struct field attr of
+// itemT: func(item) T, the same marked Expensive, func(map[batch.Index]item) (map[batch.Index]T, error), and
+// the batch function with func(item) (T, error) as fallback.
+func attrOpts(itemT reflect.Type, attr string, isSort bool) []schemabuilder.FieldFuncOption {
+	sf, _ := itemT.FieldByName(structField[attr])
+	valT := sf.Type
+	get := func(it reflect.Value) reflect.Value { return it.FieldByName(structField[attr]) }
+	one := reflect.MakeFunc(reflect.FuncOf([]reflect.Type{itemT}, []reflect.Type{valT}, false),
+		func(in []reflect.Value) []reflect.Value { return []reflect.Value{get(in[0])} }).Interface()
+	oneE := reflect.MakeFunc(reflect.FuncOf([]reflect.Type{itemT}, []reflect.Type{valT, errorType}, false),
+		func(in []reflect.Value) []reflect.Value { return []reflect.Value{get(in[0]), reflect.Zero(errorType)} }).Interface()
+	inT, outT := reflect.MapOf(indexType, itemT), reflect.MapOf(indexType, valT)
+	many := reflect.MakeFunc(reflect.FuncOf([]reflect.Type{inT}, []reflect.Type{outT, errorType}, false),
+		func(in []reflect.Value) []reflect.Value {
+			out := reflect.MakeMapWithSize(outT, in[0].Len())
+			for it := in[0].MapRange(); it.Next(); {
+				out.SetMapIndex(it.Key(), get(it.Value()))
 			}
-			return m, nil
+			return []reflect.Value{out, reflect.Zero(errorType)}
+		}).Interface()
+	if isSort {
+		return []schemabuilder.FieldFuncOption{
+			schemabuilder.SortField(attr+"_plain", one),
+			schemabuilder.SortField(attr+"_exp", one, schemabuilder.Expensive),
+			schemabuilder.BatchSortField(attr+"_batch", many),
+			schemabuilder.BatchSortFieldWithFallback(attr+"_fb", many, oneE, useBatch)}
+	}
+	return []schemabuilder.FieldFuncOption{
+		schemabuilder.FilterField(attr+"_plain", one),
+		schemabuilder.FilterField(attr+"_exp", one, schemabuilder.Expensive),
+		schemabuilder.BatchFilterField(attr+"_batch", many),
+		schemabuilder.BatchFilterFieldWithFallback(attr+"_fb", many, oneE, useBatch)}
+}
+
+// The custom FilterFuncs (user code as far as thunder is concerned).
+func customTokens(name, text string) []string {
+	if name == "prefix" {
+		return strings.Split(text, ",")
+	}
+	return []string{text}
+}
+
+func customMatch(name, text string, toks []string) bool {
+	if name == "prefix" {
+		for _, t := range toks {
+			if t != "" && strings.HasPrefix(text, t) {
+				return true
+			}
 		}
-		opts = append(opts,
-			schemabuilder.FilterField(textAttrs[a]+"_plain", one),
-			schemabuilder.FilterField(textAttrs[a]+"_exp", one, schemabuilder.Expensive),
-			schemabuilder.BatchFilterField(textAttrs[a]+"_batch", many),
-			schemabuilder.BatchFilterFieldWithFallback(textAttrs[a]+"_fb", many, oneE, useBatch))
+		return false
+	}
+	return len(toks) == 1 && text == toks[0]
+}
+
+func customOpts() []schemabuilder.FieldFuncOption {
+	var opts []schemabuilder.FieldFuncOption
+	for _, n := range customNames {
+		name := n
+		opts = append(opts, schemabuilder.FilterFunc(name,
+			func(text string) []string { return customTokens(name, text) },
+			func(text string, toks []string) bool { return customMatch(name, text, toks) }))
 	}
 	return opts
 }
 
-func filterOptsS() []schemabuilder.FieldFuncOption {
-	var opts []schemabuilder.FieldFuncOption
-	for ai := range textAttrs {
-		a := ai
-		one := func(it ItemS) string { return textOfS(it, a) }
-		oneE := func(it ItemS) (string, error) { return textOfS(it, a), nil }
-		many := func(items map[batch.Index]ItemS) (map[batch.Index]string, error) {
-			m := make(map[batch.Index]string, len(items))
-			for i, it := range items {
-				m[i] = textOfS(it, a)
-			}
-			return m, nil
-		}
-		opts = append(opts,
-			schemabuilder.FilterField(textAttrs[a]+"_plain", one),
-			schemabuilder.FilterField(textAttrs[a]+"_exp", one, schemabuilder.Expensive),
-			schemabuilder.BatchFilterField(textAttrs[a]+"_batch", many),
-			schemabuilder.BatchFilterFieldWithFallback(textAttrs[a]+"_fb", many, oneE, useBatch))
+func allOpts(itemT reflect.Type) []schemabuilder.FieldFuncOption {
+	opts := []schemabuilder.FieldFuncOption{schemabuilder.Paginated}
+	for _, a := range textAttrs {
+		opts = append(opts, attrOpts(itemT, a, false)...)
 	}
-	return opts
+	for _, a := range sortAttrs {
+		opts = append(opts, attrOpts(itemT, a, true)...)
+	}
+	return append(opts, customOpts()...)
 }
 
-func sortOptsI() []schemabuilder.FieldFuncOption {
-	var opts []schemabuilder.FieldFuncOption
-	for ai := 0; ai < 2; ai++ {
-		a := ai
-		get := func(it ItemI) int64 { return [2]int64{it.N0, it.N1}[a] }
-		one := func(it ItemI) int64 { return get(it) }
-		oneE := func(it ItemI) (int64, error) { return get(it), nil }
-		many := func(items map[batch.Index]ItemI) (map[batch.Index]int64, error) {
-			m := make(map[batch.Index]int64, len(items))
-			for i, it := range items {
-				m[i] = get(it)
-			}
-			return m, nil
-		}
-		opts = append(opts,
-			schemabuilder.SortField(sortAttrs[a]+"_plain", one),
-			schemabuilder.SortField(sortAttrs[a]+"_exp", one, schemabuilder.Expensive),
-			schemabuilder.BatchSortField(sortAttrs[a]+"_batch", many),
-			schemabuilder.BatchSortFieldWithFallback(sortAttrs[a]+"_fb", many, oneE, useBatch))
-	}
-	one := func(it ItemI) string { return it.S0 }
-	oneE := func(it ItemI) (string, error) { return it.S0, nil }
-	many := func(items map[batch.Index]ItemI) (map[batch.Index]string, error) {
-		m := make(map[batch.Index]string, len(items))
-		for i, it := range items {
-			m[i] = it.S0
-		}
-		return m, nil
-	}
-	opts = append(opts,
-		schemabuilder.SortField("s0_plain", one),
-		schemabuilder.SortField("s0_exp", one, schemabuilder.Expensive),
-		schemabuilder.BatchSortField("s0_batch", many),
-		schemabuilder.BatchSortFieldWithFallback("s0_fb", many, oneE, useBatch))
-	return opts
+func toItemI(it Item) ItemI {
+	id, _ := strconv.ParseInt(it.Key, 10, 64)
+	return ItemI{Id: id, T0: it.T[0], T1: it.T[1], T2: it.T[2], N0: it.N[0], N1: it.N[1], S0: it.S, U0: it.U, F0: it.F}
 }
 
-func sortOptsS() []schemabuilder.FieldFuncOption {
-	var opts []schemabuilder.FieldFuncOption
-	for ai := 0; ai < 2; ai++ {
-		a := ai
-		get := func(it ItemS) int64 { return [2]int64{it.N0, it.N1}[a] }
-		one := func(it ItemS) int64 { return get(it) }
-		oneE := func(it ItemS) (int64, error) { return get(it), nil }
-		many := func(items map[batch.Index]ItemS) (map[batch.Index]int64, error) {
-			m := make(map[batch.Index]int64, len(items))
-			for i, it := range items {
-				m[i] = get(it)
-			}
-			return m, nil
-		}
-		opts = append(opts,
-			schemabuilder.SortField(sortAttrs[a]+"_plain", one),
-			schemabuilder.SortField(sortAttrs[a]+"_exp", one, schemabuilder.Expensive),
-			schemabuilder.BatchSortField(sortAttrs[a]+"_batch", many),
-			schemabuilder.BatchSortFieldWithFallback(sortAttrs[a]+"_fb", many, oneE, useBatch))
+func itemsI(ctx context.Context) []ItemI {
+	src, _ := ctx.Value(itemsKey).([]Item)
+	out := make([]ItemI, len(src))
+	for i, it := range src {
+		out[i] = toItemI(it)
 	}
-	one := func(it ItemS) string { return it.S0 }
-	oneE := func(it ItemS) (string, error) { return it.S0, nil }
-	many := func(items map[batch.Index]ItemS) (map[batch.Index]string, error) {
-		m := make(map[batch.Index]string, len(items))
-		for i, it := range items {
-			m[i] = it.S0
+	return out
+}
+
+func extReturn(ctx context.Context) ([]ItemI, schemabuilder.PaginationInfo, schemabuilder.PostProcessOptions, error) {
+	var info schemabuilder.PaginationInfo
+	var ppo schemabuilder.PostProcessOptions
+	if x, _ := ctx.Value(extKey).(*ExtInfo); x != nil {
+		if x.Total != nil {
+			t := *x.Total
+			info.TotalCountFunc = func() int64 { return t }
 		}
-		return m, nil
+		info.HasNextPage, info.HasPrevPage, info.Pages = x.HasNext, x.HasPrev, x.Pages
+		ppo.ApplyTextFilter, ppo.SetPageInfo = x.ApplyTextFilter, x.SetPageInfo
 	}
-	opts = append(opts,
-		schemabuilder.SortField("s0_plain", one),
-		schemabuilder.SortField("s0_exp", one, schemabuilder.Expensive),
-		schemabuilder.BatchSortField("s0_batch", many),
-		schemabuilder.BatchSortFieldWithFallback("s0_fb", many, oneE, useBatch))
-	return opts
+	return itemsI(ctx), info, ppo, nil
 }
 
 func buildSchema() (s *graphql.Schema, err error) {
@@ -189,49 +206,38 @@ func buildSchema() (s *graphql.Schema, err error) {
 	os := schema.Object("ItemS", ItemS{})
 	os.Key("id")
 	q := schema.Query()
-	optsI := append([]schemabuilder.FieldFuncOption{schemabuilder.Paginated}, filterOptsI()...)
-	optsI = append(optsI, sortOptsI()...)
-	q.FieldFunc("itemsI", func(ctx context.Context) []ItemI {
-		src, _ := ctx.Value(itemsKey).([]Item)
-		out := make([]ItemI, len(src))
-		for i, it := range src {
-			id, _ := strconv.ParseInt(it.Key, 10, 64)
-			out[i] = ItemI{Id: id, T0: it.T[0], T1: it.T[1], T2: it.T[2], N0: it.N[0], N1: it.N[1], S0: it.S}
-		}
-		return out
-	}, optsI...)
-	optsS := append([]schemabuilder.FieldFuncOption{schemabuilder.Paginated}, filterOptsS()...)
-	optsS = append(optsS, sortOptsS()...)
+	tI, tS := reflect.TypeOf(ItemI{}), reflect.TypeOf(ItemS{})
+	q.FieldFunc("itemsI", func(ctx context.Context) []ItemI { return itemsI(ctx) }, allOpts(tI)...)
 	q.FieldFunc("itemsS", func(ctx context.Context) []ItemS {
 		src, _ := ctx.Value(itemsKey).([]Item)
 		out := make([]ItemS, len(src))
 		for i, it := range src {
-			out[i] = ItemS{Id: it.Key, T0: it.T[0], T1: it.T[1], T2: it.T[2], N0: it.N[0], N1: it.N[1], S0: it.S}
+			out[i] = ItemS{Id: it.Key, T0: it.T[0], T1: it.T[1], T2: it.T[2], N0: it.N[0], N1: it.N[1], S0: it.S, U0: it.U, F0: it.F}
 		}
 		return out
-	}, optsS...)
+	}, allOpts(tS)...)
 	// pointer nodes: the resolver returns []*ItemI, filter/sort fields are declared on the value type
-	optsP := append([]schemabuilder.FieldFuncOption{schemabuilder.Paginated}, filterOptsI()...)
-	optsP = append(optsP, sortOptsI()...)
 	q.FieldFunc("itemsP", func(ctx context.Context) []*ItemI {
-		src, _ := ctx.Value(itemsKey).([]Item)
+		src := itemsI(ctx)
 		out := make([]*ItemI, len(src))
-		for i, it := range src {
-			id, _ := strconv.ParseInt(it.Key, 10, 64)
-			out[i] = &ItemI{Id: id, T0: it.T[0], T1: it.T[1], T2: it.T[2], N0: it.N[0], N1: it.N[1], S0: it.S}
+		for i := range src {
+			out[i] = &src[i]
 		}
 		return out
-	}, optsP...)
+	}, allOpts(tI)...)
 	// a paginated field with no filter or sort fields registered
-	q.FieldFunc("bareI", func(ctx context.Context) []ItemI {
-		src, _ := ctx.Value(itemsKey).([]Item)
-		out := make([]ItemI, len(src))
-		for i, it := range src {
-			id, _ := strconv.ParseInt(it.Key, 10, 64)
-			out[i] = ItemI{Id: id, T0: it.T[0], T1: it.T[1], T2: it.T[2], N0: it.N[0], N1: it.N[1], S0: it.S}
-		}
-		return out
-	}, schemabuilder.Paginated)
+	q.FieldFunc("bareI", func(ctx context.Context) []ItemI { return itemsI(ctx) }, schemabuilder.Paginated)
+	// externally managed: the resolver embeds PaginationArgs and returns the page with its own page info
+	q.FieldFunc("extI", func(ctx context.Context, args ExtArgs) ([]ItemI, schemabuilder.PaginationInfo, schemabuilder.PostProcessOptions, error) {
+		return extReturn(ctx)
+	}, allOpts(tI)...)
+	// manual pagination with a thunder-managed fallback, selected per request
+	q.ManualPaginationWithFallback("dualI",
+		func(ctx context.Context, args ExtArgs) ([]ItemI, schemabuilder.PaginationInfo, schemabuilder.PostProcessOptions, error) {
+			return extReturn(ctx)
+		},
+		func(ctx context.Context) ([]ItemI, error) { return itemsI(ctx), nil },
+		useFallback, allOpts(tI)...)
 	schema.Mutation()
 	return schema.Build()
 }
@@ -246,6 +252,7 @@ type Args struct {
 	FilterFields *[]string `json:"filter_fields,omitempty"` // registered names, e.g. "t0_batch"
 	SortBy       *string   `json:"sort_by,omitempty"`       // registered name, e.g. "n1_fb"
 	SortOrder    *string   `json:"sort_order,omitempty"`    // "asc" | "desc"
+	FilterType   *string   `json:"filter_type,omitempty"`   // name of a custom FilterFunc
 }
 
 func gqlString(s string) string {
@@ -285,6 +292,9 @@ func queryText(field string, a Args) string {
 	if a.SortOrder != nil {
 		parts = append(parts, "sortOrder: "+gqlString(*a.SortOrder))
 	}
+	if a.FilterType != nil {
+		parts = append(parts, "filterType: "+gqlString(*a.FilterType))
+	}
 	argText := ""
 	if len(parts) > 0 {
 		argText = "(" + strings.Join(parts, ", ") + ")"
@@ -306,12 +316,15 @@ func classify(msg string) string {
 		return "both"
 	case strings.Contains(msg, "unknown sort field"):
 		return "unknown-sort"
+	case strings.Contains(msg, "must set TotalCountFunc on PaginationInfo"):
+		return "no-total-func"
 	}
 	return "other: " + msg
 }
 
 // runPage executes one page query against the real schema through Parse / PrepareQuery / Execute.
-func runPage(schema *graphql.Schema, field string, items []Item, flag bool, a Args) pageResult {
+func runPage(schema *graphql.Schema, c *Case, a Args) pageResult {
+	field := c.Field
 	type res struct {
 		v   interface{}
 		err error
@@ -320,8 +333,10 @@ func runPage(schema *graphql.Schema, field string, items []Item, flag bool, a Ar
 	ch := make(chan res, 1)
 	ctx, cancel := context.WithCancel(context.Background())
 	defer cancel()
-	ctx = context.WithValue(ctx, itemsKey, items)
-	ctx = context.WithValue(ctx, flagKey, flag)
+	ctx = context.WithValue(ctx, itemsKey, c.Items)
+	ctx = context.WithValue(ctx, flagKey, c.Flag)
+	ctx = context.WithValue(ctx, extKey, c.Ext)
+	ctx = context.WithValue(ctx, fallbackKey, c.Fallback)
 	text := queryText(field, a)
 	go func() {
 		var r res
